@@ -250,6 +250,11 @@ func (l *queryLog) Add(params *AddParams) {
 	l.bufferLock.Lock()
 	defer l.bufferLock.Unlock()
 
+	// Set the time under the lock, so that the entries of the requests that
+	// are processed concurrently are stored in the order of their times.  The
+	// search by time in the log files relies on that order.
+	entry.Time = time.Now()
+
 	l.buffer.Push(entry)
 
 	if !l.flushPending && fileIsEnabled && l.buffer.Len() >= memSize {
